@@ -38,7 +38,7 @@ GEN_RULE = (
 def plan(prop, tier):
     if prop == "C01":
         return explorer_plan(
-            "c01", tier, 2500, 40000, GEN_RULE + "; C01 oracle: allocator monitor x kernel-held region registry, quarantine poison check, stack-memory check; plus realmix: the same kind of poll/drop/teardown histories on the REAL io_uring of this machine (pipes and socket pairs, the harness writing to the other end decides when reads complete), every freed block quarantined with a poison pattern that a late kernel write would change; plus c06mt: futures dropped on worker threads while the ring thread consumes their completions",
+            "c01", tier, 2500, 120000, GEN_RULE + "; C01 oracle: allocator monitor x kernel-held region registry, quarantine poison check, stack-memory check; plus realmix: the same kind of poll/drop/teardown histories on the REAL io_uring of this machine (pipes and socket pairs, the harness writing to the other end decides when reads complete), every freed block quarantined with a poison pattern that a late kernel write would change; plus c06mt: futures dropped on worker threads while the ring thread consumes their completions",
             ["drop:Single:in-flight", "drop:Multi:in-flight", ["drop:TwoStep:in-flight", "drop:TwoStep:between-two-completions"], "cqe:for-dropped-op", "simk_kernel_mem_writes", "simk_kernel_mem_reads", "mt-drop:workers=2"],
             extra_quick=[gen_job("c06mt", "native-debug", 500, 8, timeout=400), gen_job("realmix", "native-debug", 1000, 8, timeout=600)],
             extra_thorough=[gen_job("c01", "asan", 3000, 16, timeout=1200), gen_job("c01", "miri", 12, 16, timeout=1500), gen_job("realmix", "native-debug", 30000, 16, timeout=3000), gen_job("realmix", "native-release", 30000, 16, timeout=3000), gen_job("realmix", "asan", 5000, 16, timeout=3000),
@@ -46,25 +46,25 @@ def plan(prop, tier):
         )
     if prop == "C02":
         return explorer_plan(
-            "c02", tier, 2500, 40000, GEN_RULE + "; C02 oracle: per-op sequential model keyed by submission id (unique results, keyed read payloads)",
+            "c02", tier, 2500, 250000, GEN_RULE + "; C02 oracle: per-op sequential model keyed by submission id (unique results, keyed read payloads)",
             ["resolved:Single", "resolved:Multi", "resolved:TwoStep", "cqe:multishot-item", "cqe:zc-result", "cqe:notif"],
             extra_thorough=[gen_job("c02", "miri", 10, 16, timeout=1500)],
         )
     if prop == "C03":
         return explorer_plan(
-            "c03", tier, 2500, 40000, GEN_RULE + "; C03 oracle: waker ledger at quiescent points + strict executor (re-polls only woken ops) + bounded queue-space progress; plus the multi-threaded schedules of scenario c04 (2-4 submitter threads each running a strict executor - poll, then block until the waker fired - while the ring thread polls; a thread still blocked once the queue is empty and nothing is in flight is a lost wake-up) and the same on the real kernel (scenario c04real: a thread still waiting for a write whose token has arrived at the other end of the pipe)",
+            "c03", tier, 2500, 250000, GEN_RULE + "; C03 oracle: waker ledger at quiescent points + strict executor (re-polls only woken ops) + bounded queue-space progress; plus the multi-threaded schedules of scenario c04 (2-4 submitter threads each running a strict executor - poll, then block until the waker fired - while the ring thread polls; a thread still blocked once the queue is empty and nothing is in flight is a lost wake-up) and the same on the real kernel (scenario c04real: a thread still waiting for a write whose token has arrived at the other end of the pipe)",
             ["repoll:new-waker", "repoll:same-waker", "resolved:Single", "resolved:Multi", "ops_resolved"],
             extra_quick=[gen_job("c04", "native-debug", 40, 8, timeout=400), gen_job("c04real", "native-debug", 60, 8, timeout=600)],
             extra_thorough=[gen_job("c04", "native-debug", 1500, 16, timeout=3000), gen_job("c04", "native-release", 1500, 16, timeout=3000), gen_job("c04real", "native-debug", 3000, 16, timeout=3000), gen_job("c04real", "native-release", 3000, 16, timeout=3000)],
         )
     if prop == "C05":
         return explorer_plan(
-            "c05", tier, 2500, 40000, GEN_RULE + "; C05 oracle: trap entries in unpublished/returned CQ slots, head monotonicity, injected bookkeeping/F_SKIP completions with recognisable results, counters started near 2^32 and 2^31",
+            "c05", tier, 2500, 300000, GEN_RULE + "; C05 oracle: trap entries in unpublished/returned CQ slots, head monotonicity, injected bookkeeping/F_SKIP completions with recognisable results, counters started near 2^32 and 2^31",
             ["bookkeeping:ud=0:skip=true", "bookkeeping:ud=1:skip=false", "bookkeeping:ud=2:skip=false", "bookkeeping:ud=9:skip=true", "simk_trap_entries_written", "simk_cqes_backlogged"],
         )
     if prop == "C06":
         return explorer_plan(
-            "c06", tier, 2500, 40000, GEN_RULE + "; C06 oracle: cancel requests vs drops (target, count, room), allocator exactly-once and leak ledger after teardown; plus realmix: histories on the real kernel with the leak ledger after all objects were dropped in a random order; plus c06mt: baton-scheduled worker threads dropping in-flight futures while the ring thread consumes their completions (leak/double-free ledger over the whole schedule)",
+            "c06", tier, 2500, 120000, GEN_RULE + "; C06 oracle: cancel requests vs drops (target, count, room), allocator exactly-once and leak ledger after teardown; plus realmix: histories on the real kernel with the leak ledger after all objects were dropped in a random order; plus c06mt: baton-scheduled worker threads dropping in-flight futures while the ring thread consumes their completions (leak/double-free ledger over the whole schedule)",
             ["drop:Single:in-flight", "drop:Single:never-polled", "drop:Single:finished", "drop:Multi:multishot-mid-stream", ["drop:TwoStep:between-two-completions", "drop:TwoStep:in-flight"], "drop:Single:queued-not-consumed", "simk_cancels", "mt-drop:workers=2", "mt-drop:workers=3"],
             extra_quick=[gen_job("c06mt", "native-debug", 500, 8, timeout=400), gen_job("c06free", "miri", 2, 4, timeout=900), gen_job("realmix", "native-debug", 1000, 8, timeout=600)],
             extra_thorough=[gen_job("c06", "asan", 3000, 16, timeout=1200, lsan=True), gen_job("realmix", "native-debug", 30000, 16, timeout=3000), gen_job("realmix", "native-release", 30000, 16, timeout=3000),
@@ -72,7 +72,7 @@ def plan(prop, tier):
         )
     if prop == "C09":
         return explorer_plan(
-            "c09", tier, 2500, 40000, GEN_RULE + "; C09 oracle: byte-for-byte comparison of re-issued submissions, caller never observes EINTR/ECANCELED, result equals last attempt",
+            "c09", tier, 2500, 300000, GEN_RULE + "; C09 oracle: byte-for-byte comparison of re-issued submissions, caller never observes EINTR/ECANCELED, result equals last attempt",
             ["cqe:interrupt", "interrupted_attempts", "resolved:Single", "resolved:Multi"],
             level="exploration",
         )
@@ -118,7 +118,7 @@ def plan(prop, tier):
                     floor_evaluations=5000, assumptions=SIMK_ASSUMPTIONS, also=["C08"])
     if prop == "C07":
         return explorer_plan(
-            "c07", tier, 2500, 40000, GEN_RULE + "; restricted to descriptor-creating operations (open/socket/accept/multishot accept on regular and on direct-descriptor listeners/pipe/to_direct/to_file, regular and direct), AsyncFd::close, standard-stream handles, 1-4 entry queues so that the synchronous close fallback runs; C07 oracle: descriptor ledger fed by the close(2) interposer, IORING_OP_CLOSE, files-update and the creating completions; direct indices live in 3000.. so that a descriptor closed as the wrong kind is unmistakable; plus realmix on the real kernel: socket/pipe/to_direct operations (regular and direct) driven to completion, new pipes must carry bytes, descriptors dropped or closed explicitly at random, the process' descriptor count before/after each history and re-allocation of the whole direct table once every direct descriptor was dropped",
+            "c07", tier, 2500, 100000, GEN_RULE + "; restricted to descriptor-creating operations (open/socket/accept/multishot accept on regular and on direct-descriptor listeners/pipe/to_direct/to_file, regular and direct), AsyncFd::close, standard-stream handles, 1-4 entry queues so that the synchronous close fallback runs; C07 oracle: descriptor ledger fed by the close(2) interposer, IORING_OP_CLOSE, files-update and the creating completions; direct indices live in 3000.. so that a descriptor closed as the wrong kind is unmistakable; plus realmix on the real kernel: socket/pipe/to_direct operations (regular and direct) driven to completion, new pipes must carry bytes, descriptors dropped or closed explicitly at random, the process' descriptor count before/after each history and re-allocation of the whole direct table once every direct descriptor was dropped",
             ["stdio-handle-dropped", "kind:SocketDirect", "kind:PipeDirect", "kind:Close", "kind:MultishotAccept", "kind:AcceptDirect", "kind:MultishotAcceptDirect", "drop:Single:in-flight", "drop:Single:completion-posted-not-consumed", "drop:Single:done-not-collected", "simk_closes", "real_descriptor_ops"],
             extra_quick=[gen_job("realmix", "native-debug", 1000, 8, timeout=600)],
             extra_thorough=[gen_job("realmix", "native-debug", 30000, 16, timeout=3000), gen_job("realmix", "native-release", 30000, 16, timeout=3000)],
@@ -183,7 +183,7 @@ def plan(prop, tier):
         if tier == "quick":
             jobs = [gen_job("c17", "native-debug", 2500, 8)]
         else:
-            jobs = [gen_job("c17", "native-debug", 60000, 16, timeout=1800), gen_job("c17", "native-release", 60000, 16, timeout=1800), gen_job("c17", "asan", 4000, 16, timeout=1800), gen_job("c17", "miri", 12, 16, timeout=2400)]
+            jobs = [gen_job("c17", "native-debug", 250000, 16, timeout=3000), gen_job("c17", "native-release", 250000, 16, timeout=3000), gen_job("c17", "asan", 4000, 16, timeout=1800), gen_job("c17", "miri", 12, 16, timeout=2400)]
         return dict(jobs=jobs, level="exploration", rule=rule, floor_cells=["record:ignored", "record:overflow", "record:name-255", "record:no-name", "record:unknown-wd", "end:0", "end:1", "end:2", "keep:0", "keep:3", "events_checked"],
                     floor_evaluations=5000, assumptions=SIMK_ASSUMPTIONS + ["inotify_init1/inotify_add_watch are interposed by the harness (watch descriptors 1,2,3.. per instance like the kernel); record layout follows inotify(7): header 16 bytes, name padded with NULs to a multiple of 16"], also=[])
     if prop == "C13":
@@ -192,7 +192,7 @@ def plan(prop, tier):
         if tier == "quick":
             jobs = [gen_job("c13", "native-debug", 500, 8, timeout=600), gen_job("c13abi", "native-debug", 2500, 8)]
         else:
-            jobs = [gen_job("c13", "native-debug", 8000, 16, timeout=3000), gen_job("c13", "native-release", 8000, 16, timeout=3000), gen_job("c13abi", "native-debug", 60000, 16, timeout=1800), gen_job("c13abi", "native-release", 60000, 16, timeout=1800)]
+            jobs = [gen_job("c13", "native-debug", 40000, 16, timeout=3000), gen_job("c13", "native-release", 40000, 16, timeout=3000), gen_job("c13abi", "native-debug", 300000, 16, timeout=3000), gen_job("c13abi", "native-release", 300000, 16, timeout=3000)]
         return dict(jobs=jobs, level="exploration", rule=rule, floor_cells=["op:write:regular", "op:write:direct", "op:read:direct", "op:read_vectored:regular", "op:write_vectored:direct", "op:open", "op:rename", "op:remove_dir", "op:send:direct", "op:recv:regular", "op:sockopt:direct", "op:shutdown:regular", "op:pipe", ["op:splice:regular", "op:splice:direct"], "op:allocate:regular", "op:truncate:direct", "abi:waitid", "abi:madvise", "abi:splice", "abi:open", "abi:accept", "abi:multishot_accept", "abi-kind:direct", "op:socket-name:regular", ["op:socket-name:direct", "op:socket-name-unsupported:direct"]],
                     floor_evaluations=5000, assumptions=["the real io_uring of this sandbox (kernel 6.18) and libc/std are the oracle for part (a); arguments are sampled, not enumerated", "part (b) trusts the harness' independent ABI table (written from the uapi header)", "operations needing privileges or devices are compared for equal failure"], also=[])
     return None
